@@ -26,11 +26,16 @@ def real_qt(tier):
                 if disp == "unix":
                     env["QT_NO_GLIB"] = "1"
                 t0 = time.time()
-                try:
-                    r = subprocess.run([exe, str(path), str(b), out], capture_output=True, timeout=20, env=env)
-                    rc = r.returncode
-                except subprocess.TimeoutExpired:
-                    rc = "timeout"
+                rc = "timeout"
+                for limit in (20, 90):          # a timeout is re-run alone with a longer limit before it is called a hang
+                    try:
+                        if os.path.exists(out):
+                            os.unlink(out)
+                        r = subprocess.run([exe, str(path), str(b), out], capture_output=True, timeout=limit, env=env)
+                        rc = r.returncode
+                        break
+                    except subprocess.TimeoutExpired:
+                        rc = "timeout"
                 got = own(open(out).read().split("\n")) if os.path.exists(out) else []
                 if os.path.exists(out):
                     os.unlink(out)
@@ -39,7 +44,7 @@ def real_qt(tier):
                 texts = [g.split("@")[0] for g in got]
                 what = None
                 if rc == "timeout":
-                    what = "real Qt, path %d, backlog %d, %s dispatcher: the process did not exit within 20 s (delivered %r)" % (path, b, disp, got)
+                    what = "real Qt, path %d, backlog %d, %s dispatcher: the process did not exit within 90 s (delivered %r)" % (path, b, disp, got)
                     key = "real-qt:stop-hangs:path%d" % path
                 elif rc != 0:
                     raise vlib.EngineError("c04real failed rc=%r %s" % (rc, r.stderr[-500:]))
@@ -57,11 +62,16 @@ def real_qt(tier):
 
     def one(h):
         out = tempfile.mktemp(prefix="verif-c04h-", dir="/dev/shm")
-        try:
-            r = subprocess.run([exe, "hist", h, out, "25"], capture_output=True, timeout=30, env=dict(os.environ, LC_ALL="C.UTF-8"))
-            rc = r.returncode
-        except subprocess.TimeoutExpired:
-            rc = "timeout"
+        rc = "timeout"
+        for limit in (30, 120):
+            try:
+                if os.path.exists(out):
+                    os.unlink(out)
+                r = subprocess.run([exe, "hist", h, out, "25"], capture_output=True, timeout=limit, env=dict(os.environ, LC_ALL="C.UTF-8"))
+                rc = r.returncode
+                break
+            except subprocess.TimeoutExpired:
+                rc = "timeout"
         got = own(open(out).read().split("\n")) if os.path.exists(out) else []
         if os.path.exists(out):
             os.unlink(out)
@@ -72,7 +82,7 @@ def real_qt(tier):
             want = ["m%d" % i for i in range(h.count("L"))]
             texts = [g.split("@")[0] for g in got]
             if rc == "timeout":
-                viols.append({"key": "real-qt:stop-hangs:history", "what": "real Qt, history %s: the process did not finish within 30 s (delivered %r)" % (h, got),
+                viols.append({"key": "real-qt:stop-hangs:history", "what": "real Qt, history %s: the process did not finish within 120 s (delivered %r)" % (h, got),
                               "replay": vlib.write_replay(PROP, "realqt-hist-%s" % h, {"history": h, "delivered": got})})
             elif rc != 0:
                 raise vlib.EngineError("c04real hist %s failed rc=%r" % (h, rc))
@@ -163,8 +173,10 @@ def run(tier):
         dl = 2400
     scs += lifecycle_scenarios(tier)
     rq_viols, rq_n = real_qt(tier)
+    race = [dict(scenario="c04h2", backlog=2, racer=1, bound=1, glib=1), dict(scenario="c04l1", backlog=2, bound=1, glib=1),
+            {"scenario": "c04xl", "hists-file": hist_file("c04-hist-race.txt", ["AMLLRMLX", "MLAR", "AMLXL", "AMLaL", "MLLALR 3 1", "AMLRML 2 1"]), "bound": 1, "glib": 1, "_shards": 6}]
     return vsrun.vs_check(
-        PROP, tier, scs, deadline_s=dl,
+        PROP, tier, scs, deadline_s=dl, race_scenarios=race,
         rule="every interleaving, up to the deviation bound, of the stopping thread, the worker thread and an optional racing producer, for each shutdown path (1 exec() returns -> aboutToQuit, "
              "2 explicit resetOwnThread, 3 destructor with a live application, 4 destructor after the application object is gone without exec(), 5 the same after exec()) x backlog sizes x "
              "both event-dispatcher variants x a bare OwnThreadHandler<Pipeline> and a Logger, optionally 2 move/reset cycles; timeouts of wait(3000) are explored as deviations; oracle per "
